@@ -16,6 +16,7 @@ func TestOne(t *testing.T) {
 	if err := json.Unmarshal([]byte(s), &rc); err != nil {
 		t.Fatal(err)
 	}
+	verbose = true
 	res, fail, harness, leak := run(t, rc.Sc, rc.Plan)
 	b, _ := json.MarshalIndent(res, "", " ")
 	t.Logf("result: %s", b)
